@@ -38,6 +38,11 @@ func c17Record(t *rapid.T) (ChartConfig, bool) {
 	}
 	if rapid.Bool().Draw(t, "hasDesc") {
 		c.Description = c17Value().Draw(t, "desc")
+		if rapid.IntRange(0, 24).Draw(t, "veryLongLine") == 0 {
+			// a line longer than the usual I/O buffer sizes
+			c.Description += " " + strings.Repeat("long ", rapid.SampledFrom([]int{820, 13107, 13108, 14000, 60000}).Draw(t, "longWords"))
+			c.Description = strings.TrimSpace(c.Description)
+		}
 	}
 	for i, n := 0, rapid.IntRange(0, 3).Draw(t, "nissue"); i < n; i++ {
 		c.Issue = append(c.Issue, c17Value().Draw(t, "issue"))
